@@ -13,12 +13,19 @@ import (
 )
 
 func newCompEngine(l []rune, cp int) (*completion.Engine, *core.Keys, *core.Line, *core.Cursor) {
+	return newCompEngineIC(l, cp, false)
+}
+
+func newCompEngineIC(l []rune, cp int, ignoreCase bool) (*completion.Engine, *core.Keys, *core.Line, *core.Cursor) {
 	keys := new(core.Keys)
 	line := core.Line(append([]rune{}, l...))
 	cur := core.NewCursor(&line)
 	cur.Set(cp)
 	sel := core.NewSelection(&line, cur)
 	km, cfg := keymap.NewEngine(keys, new(core.Iterations))
+	if ignoreCase {
+		cfg.Set("completion-ignore-case", true)
+	}
 	eng := completion.NewEngine(new(ui.Hint), km, cfg)
 	completion.Init(eng, keys, &line, cur, sel, nil)
 	km.SetLocal(keymap.MenuSelect)
@@ -158,12 +165,17 @@ func init() {
 	// generate, cycle forward/backward, drop the candidate (Cancel(true)), keep it (Cancel(false) + ClearMenu,
 	// what UpdateInserted does), type a character, unique candidate accepted at once
 	register(&model{name: "compseq", gen: func(rng *rand.Rand) (string, string, string) {
-		l := randRunes(rng, compAlpha, 8)
+		alpha := compAlpha
+		ic := rng.Intn(3) == 0
+		if ic { // case-insensitive matching: K (U+212A, three bytes) is matched by k (one byte)
+			alpha = append(append([]rune{}, compAlpha...), 0x212A, 'A', 0x212A)
+		}
+		l := randRunes(rng, alpha, 8)
 		cp := rng.Intn(len(l) + 1)
 		class := "cycle"
 		var ops, outs []string
 		res := guard(func() string {
-			eng, keys, line, cur := newCompEngine(l, cp)
+			eng, keys, line, cur := newCompEngineIC(l, cp, ic)
 			core.MatchedKeys(keys, []byte{9})
 			snap := func() {
 				cl, cc := eng.Line()
@@ -191,6 +203,9 @@ func init() {
 			nseg := 1 + rng.Intn(3)
 			for sg := 0; sg < nseg; sg++ {
 				pfx := prefix()
+				if ic {
+					pfx = strings.ToLower(pfx)
+				}
 				eng.ClearMenu(true)
 				if rng.Intn(6) == 0 { // a unique candidate is accepted into the real line at once
 					class = "unique"
@@ -264,6 +279,9 @@ func init() {
 		}
 		if len(ops) == 0 {
 			return "", "", ""
+		}
+		if ic {
+			class += "/ignore-case"
 		}
 		return fmt.Sprintf("compseq %s %d %s", natsR(l), cp, strings.Join(ops, ",")), res, class
 	}})
